@@ -215,6 +215,27 @@ def run(check, an: Analysis):
                 seq = rules.mapped_sequence(new.fn.node, chosen)
                 ok &= seq == (vararg, 'type(x_)', None) and isinstance(
                     chosen, ast.Call) and ast.unparse(chosen.func) == 'tuple'
+    # ... on every path that is given children: no way through __new__ makes an instance
+    # of the class as called (whose specialisation need not be the children's types)
+    cls_n = new.fn.node.args.args[0].arg
+    n_made, as_called = 0, None
+    for path in an.paths(new):
+        if path.kind != 'return' or path.outcome[1] is None:
+            continue
+        empty = any(e.kind == 'test' and e.get('key') == ('truth', vararg)
+                    and key_truth(e) is False for e in path.events)
+        made = rules.value_expr(path, len(path.events), path.outcome[1])
+        if isinstance(made, ast.Call) and made.args:
+            n_made += 1
+            of = ast.unparse(made.args[0])
+            if not empty and of == cls_n:
+                as_called = as_called or path
+    check.instance('N', 'Concurrent.__new__:never-the-class-as-called', as_called is None
+                   and n_made >= 2, where_fn(new.fn),
+                   'with children, the instance is made of the class looked up for their '
+                   'types, never of `%s` as called (%d constructions on paths)' % (
+                       cls_n, n_made),
+                   path=rules.path_lines(as_called) if as_called else None, analysed=n_made)
     check.instance('N', 'Concurrent.__new__:by-child-types', ok and n_pick > 0,
                    where_fn(new.fn), 'Concurrent(*children) is of type cls[tuple(type(child) '
                    'for child in children)] (%d specialisations on paths)' % n_pick)
